@@ -395,18 +395,24 @@ def drive(sc):
         F0 = [c["F"] for c in sc["chroms"]]
         F1 = [_apply(c["F"], c["g"]) for c in sc["chroms"]]
         allc = list(range(len(F0)))
+        per = {}  # (chromosome, run) -> events
         for run, Fs, encs in ((0, F0, sc["enc0"]), (1, F1, sc["enc1"])):
             res = _run(tmp, f"r{run}", p, nf, allc, Fs, encs)
             if res[4] is None:
-                evs.extend(_events(run, p, nf, allc, Fs, res))
+                for ci in allc:
+                    per[(ci, run)] = _events(run, p, nf, [ci], Fs, res)
                 continue
             # the batch failed: attribute the failure, chromosome by chromosome
             for ci in allc:
                 res = _run(tmp, f"r{run}c{ci}", p, nf, [ci], Fs, encs)
-                evs.extend(_events(run, p, nf, [ci], Fs, res))
+                per[(ci, run)] = _events(run, p, nf, [ci], Fs, res)
                 if res[4] is not None:
-                    evs.append({"ev": "RunFailed", "run": run, "chrom": ci, "exc": res[4]["exc"], "where": res[4]["where"],
-                                "msg": res[4]["msg"]})
+                    per[(ci, run)].append({"ev": "RunFailed", "run": run, "chrom": ci, "exc": res[4]["exc"],
+                                           "where": res[4]["where"], "msg": res[4]["msg"]})
+        # both runs of one chromosome are consecutive in the trace (the trace spec relates them)
+        for ci in allc:
+            evs.extend(per[(ci, 0)])
+            evs.extend(per[(ci, 1)])
     finally:
         shutil.rmtree(tmp, ignore_errors=True)
     return evs
